@@ -26,6 +26,8 @@ def _names(e):
 def run(ctx):
     from . import simrules
     simrules.run_records_rule(ctx, 'C18.k', floor=10)
+    from . import c17 as _c17
+    _c17._rows_from_per_shot_sequence(ctx, repo := ctx.repo, rid='C18.l')
     ctx.decided.append('C18.k samplers assemble run() results from all records of the classical data store, not from the latest-record view')
     repo = ctx.repo
     _flatten_order(ctx, repo)
